@@ -438,12 +438,8 @@ func (x *Exec) callBuiltin(name string, args []Value, site *ssa.CallCommon) Valu
 				if same {
 					return mkBV(64, uint64(n))
 				}
-				// length as an ite chain (no fork)
-				var r *Term = mkBV(64, uint64(a.Alts[len(a.Alts)-1].Len()))
-				for i := len(a.Alts) - 2; i >= 0; i-- {
-					r = tIte(a.Alts[i].G, mkBV(64, uint64(a.Alts[i].Len())), r)
-				}
-				return r
+				// different lengths: fork on the alternative (lengths stay concrete)
+				return mkBV(64, uint64(x.pickAlt(a).Len()))
 			}
 			return mkBV(64, uint64(a.Alts[0].Len()))
 		case *SliceVal:
